@@ -254,8 +254,10 @@ def main(argv=None):
         "wall_s": round(time.time() - t0, 3),
         "violations": n_viol,
     }
-    os.makedirs(os.path.join(ROOT, "evidence"), exist_ok=True)
-    with open(os.path.join(ROOT, "evidence", f"{pid}.json"), "w") as f:
+    # (tools/seeded.sh points this elsewhere: a run against a deliberately broken overlay must not replace the evidence of the real tree)
+    evdir = os.environ.get("VERIF_EVIDENCE_DIR") or os.path.join(ROOT, "evidence")
+    os.makedirs(evdir, exist_ok=True)
+    with open(os.path.join(evdir, f"{pid}.json"), "w") as f:
         json.dump(ev, f, indent=1, default=str)
     summary = ", ".join(f"{r['name']}={r['status']}({r['paths']}p/{r['wall_s']}s)" for r in results)
     if not all_dis:
